@@ -125,6 +125,8 @@ def replace_line(node, old, new):
     for e in node.entries:
         if e[0] == 'line':
             n.entries.append(('line', new if e[1] == old else e[1]))
+        elif e[0] == 'bin':
+            n.entries.append(e)
         else:
             n.entries.append(('inc', replace_line(e[1], old, new)))
     return n
